@@ -79,6 +79,11 @@ func c35Engine() *Engine {
 				}
 			}
 		}
+		if bg && sr.inlineFlush {
+			// ... or took the inline path with nothing left to flush: even then it
+			// bumps the transaction id in the middle of the writer's final flush
+			inlineTag = "|request-flushed-inline-during-shutdown"
+		}
 		if bg && inlineTag == "" {
 			// ... or died trying: the inline flush of a request panics when it finds
 			// the WAL status unreadable under the writer's concurrent final flush
